@@ -1237,7 +1237,13 @@ func c08r6(p *Program, r *Report) {
 	// unsigned bound S+N wrap, and then no word is visited at all)
 	if f, isFor := scan.(*ast.ForStmt); isFor {
 		isWordCount := func(e ast.Expr) bool {
-			t := strings.ReplaceAll(exprStr(stripAllConv(info, ast.Unparen(e))), " ", "")
+			e = stripAllConv(info, ast.Unparen(e))
+			if id, isId := ast.Unparen(e).(*ast.Ident); isId && info.Uses[id] != nil && singleAssigned(info, fi.Decl.Body, info.Uses[id]) {
+				if d := localDef(info, fi, id); d != nil {
+					e = stripAllConv(info, ast.Unparen(d))
+				}
+			}
+			t := strings.ReplaceAll(exprStr(e), " ", "")
 			return strings.HasSuffix(t, ".numBuckets") || strings.HasPrefix(t, "len(") && strings.HasSuffix(t, ".streams)")
 		}
 		okTrip, why := false, "loop header not understood"
